@@ -117,7 +117,8 @@ class ConcHarness:
        options: pt=<pool timeout>, v (may be cancelled), late (arrives by an environment event)"""
 
     def __init__(self, ct, callers, max_connections=1, max_keepalive=None, faults=0, cancels=0, styles=("scope",),
-                 early=True, framing="cl", h2cfg=None, horizon=600, keepalive_expiry=None, fault_set="one", h2script=None, probe=True, tick=0, connect_status=200, idle_close=0):
+                 early=True, framing="cl", h2cfg=None, horizon=600, keepalive_expiry=None, fault_set="one", h2script=None, probe=True, tick=0, connect_status=200, idle_close=0, trace=False):
+        self.trace = trace          # every request carries an async `trace` callback that really suspends (one checkpoint per event)
         self.connect_status = connect_status
         self.idle_close = idle_close        # budget of "server closes an idle HTTP/1.1 connection" events
         self.h2script = h2script
@@ -261,6 +262,11 @@ class ConcHarness:
                     ext = {"timeout": {"pool": float(o[3:])}}
             url = scen.url_for(ct, host=f"{origin}.example", token=tok)
             specs.append((name, kind, tok, opts))
+            if self.trace:
+                async def _suspending_trace(event_name, info):
+                    import anyio.lowlevel
+                    await anyio.lowlevel.checkpoint()
+                ext = dict(ext, trace=_suspending_trace)
 
             def mk(kind=kind, url=url, tok=tok, name=name, ext=ext):
                 async def prog():
@@ -689,6 +695,9 @@ def scenarios(pid, tier):
             else:
                 # a single stream is reset; the idle HTTP/2 connection is evicted for the queued other-origin request on the exit path
                 out.append(S(ct, ["req:a:w", "req:a", "req:b"], max_connections=1, h2script={"rst": 1}, early=False))
+            if ct in ("h11", "tunnel", "h2alpn") or not quick:
+                # a trace callback that suspends: the callbacks of the clean-up path run inside the library's shields
+                out.append(S(ct, ["req:a:v", "req:b"], max_connections=1, cancels=1, styles=["scope"], trace=True))
             if not quick:
                 out.append(S(ct, ["early:a:v", "req:a"], max_connections=1, cancels=1, styles=["scope", "native"]))
                 out.append(S(ct, ["hold:a:v", "req:b"], max_connections=1, cancels=1, styles=["scope", "native"]))
